@@ -137,6 +137,7 @@ func c16Assembled(seed int64) []c16File {
 func c16Corpus(e *fw.Env) []c16File {
 	var out []c16File
 	corpusThorough = !e.Quick()
+	corpusMenus = true
 	for _, f := range stillCorpus(e.Seed, e.Repo) {
 		out = append(out, c16File{Name: f.Name, Data: f.Data, Package: !bytes.HasPrefix([]byte(f.Name), []byte("hand-")) && !bytes.HasPrefix([]byte(f.Name), []byte("testdata-")) && !bytes.HasPrefix([]byte(f.Name), []byte("gen-")) && !bytes.HasPrefix([]byte(f.Name), []byte("vp8gen-"))})
 	}
